@@ -16,8 +16,13 @@ CONFIG = {
                   "false (colours correspond at every round), every answer it gives is true, and an answer does not change with more fuel "
                   "- for the IsoTerm variant /repo has (repo_variant: the regenerated flag is the recursive variant; iso_relabel_repo). "
                   "certOk_sound / groundDiffers_sound state the same for exactly the two tests from which the differential oracle is "
-                  "derived. Partial correctness: termination of the refinement loop is not claimed (with XOR-combined colours and an "
-                  "arbitrary hash the class count is not monotone). "
+                  "derived. Termination / 'answers true': proved (refine_terminates, iso_relabel_total_partial, certOk_answers_true: "
+                  "the answer is `true` within 2n+1 rounds, n = number of blank nodes) under the executable proviso monoRun - the "
+                  "number of colour classes of the first argument never decreases from one round to the next; the unrestricted "
+                  "statement IsoRelabelTotal is refuted over the model (refine_diverges, iso_relabel_total_fails: a hash function "
+                  "under which the loop runs forever on a 3-statement graph compared with itself), so no proof can do without a fact "
+                  "about the actual hasher's run. The driver evaluates monoRun on every request (it held on every gate-passing pair "
+                  "of the generated runs except the two hand shapes built to break it; on those the loop still stops). "
                   "Tie to /repo: the IsoTerm variant is regenerated on every run (fail-closed extractor); the rest is differential "
                   "(real isomorphic_datasets/isomorphic_graphs, both argument orders, 9 dataset and 9 graph containers incl. ArcTerm/"
                   "RcTerm terms, slices, Gspo tuples, a store after removals, union/single-graph views of a dataset): exact on every case "
@@ -29,9 +34,18 @@ CONFIG = {
                   "Where gates pass and no certificate exists the property fixes no answer; the implementation's answer is then a "
                   "function of the structure alone unless two different event traces collide in 64 bits (SipHash there, a mixing hash in "
                   "the driver), so it is compared as a model field: a difference is reported as a model/implementation disagreement "
-                  "(no failing input), never as a property violation. 'Held in a different container' is differential only; a Vec "
-                  "holding one statement twice is a different dataset for isomorphic_datasets (size) and is excluded "
-                  "(skip=container_content_differs). Error paths of fallible datasets are not exercised. A request whose two calls do "
+                  "(no failing input), never as a property violation. Termination of the real loop under SipHash is not provable "
+                  "from the model (the witness hash of refine_diverges cannot be replayed on the implementation: DefaultHasher is "
+                  "fixed); it is observed (per-request wall cap) and the monoRun proviso is checked on the model's run. 'Held in a "
+                  "different container': proved over the model for every pair of enumerations that list each statement once "
+                  "(iso_relabel_any_container; Enumerates = the container contract, checked per request by the harness); that the "
+                  "18 real containers meet that contract is differential. A list-like container (Vec, slice) holding one statement several times "
+                  "is a dataset with that many statements: such pairs are generated for the list-like containers (dup_* kinds, "
+                  "the model and the theorems are over lists, repetitions included); for set-like containers the request is "
+                  "skipped (skip=container_content_differs). dataset.rs / hash.rs are hand-transcribed and tied by the differential "
+                  "only (gates, refinement answer); only iso_term.rs is regenerated. Error paths are modelled (isoE: first argument traversed first; SourceError / SinkError; isoE_answer_iff, "
+                  "isoE_error_iff, isoE_symm) and compared through the driver on fallible dataset and graph containers failing at a "
+                  "given index (isoerr requests, both argument orders). A request whose two calls do "
                   "not return within 60 s (normal: < 10 ms) is reported as FAIL.no_termination for that request. "
                   "Former finding (fixed 0aad566): blank node renamed inside a quoted triple => false negative; its refutation "
                   "(iso_relabel_witness, iso_relabel_fails_shallow) is kept in Props/C07.lean but no longer counted. No native_decide.",
@@ -39,10 +53,12 @@ CONFIG = {
     "lean_targets": ["SophiaProofs.Props.C07", "SophiaProofs.Audit.C07"],
     "theorems": ["iso_symm", "iso_false_size", "iso_false_bcount", "iso_false_ground", "iso_relabel", "repo_variant",
                  "iso_relabel_repo", "iso_relabel_answers_true", "certOk_sound", "groundDiffers_sound", "iso_fuel_mono",
-                 "iso_relabel_partial", "isort_spec", "bcount_gate_subsumed", "colour_covered"],
+                 "refine_terminates", "iso_relabel_total_partial", "certOk_answers_true", "iso_relabel_any_container", "isoE_answer_iff", "isoE_error_iff", "isoE_symm",
+                 "refine_diverges",
+                 "iso_relabel_total_fails", "iso_relabel_partial", "isort_spec", "bcount_gate_subsumed", "colour_covered"],
     "native_ok": [],
     "trivial_re": r"^n1=0 n2=0 |^skip",
-    "rule": "10 hand-made small shapes, 8 hand-made gate-passing but differently wired pairs (2 regular, 6 separable), 11 families "
+    "rule": "12 hand-made small shapes (2 of them with a decreasing colour-class count), 8 hand-made gate-passing but differently wired pairs (2 regular, 6 separable), 11 families "
             "of larger shapes (chains, cycles, two cycles, stars with identical / marked / quoted leaves, chains through quoted "
             "triples at depth 1-2, one blank graph name shared by 40-120 statements, a component in two copies, sparse random, "
             "binary tree) with 6-40 (thorough 6-64) blank nodes, half of them with one anchored node, every 32nd (thorough 16th) "
@@ -50,8 +66,10 @@ CONFIG = {
             "Per dataset: relabelled+shuffled copy with the renaming fixing / not fixing nested blank nodes (permutation of the "
             "labels, all fresh labels, lexical order inverted, or mixed), then one-edit variants of the copy: one ground term "
             "changed, one statement added / removed, two blank nodes merged, one occurrence split off or rewired, the blank "
-            "objects of two statements exchanged; plus unrelated pairs; each pair in a random pair of the 9 dataset (or, when no "
-            "statement is named, 9 graph) containers; non-trivial = at least one statement; distinct = distinct request lines. "
+            "objects of two statements exchanged; for list-like containers also copies holding a statement 2-3 times (same "
+            "repetitions relabelled+shuffled, versus held once, versus another statement repeated); plus unrelated pairs; each pair in a random pair of the 9 dataset (or, when no "
+            "statement is named, 9 graph) containers; every 6th random dataset also as an isoerr request (fallible containers failing "
+            "at an index inside / beyond the statements, or never); non-trivial = at least one statement; distinct = distinct request lines. "
             "Counters: pair.answer.* (which clause fixes the answer), pair.statements/labels.*, big.*, container.*",
     "trusted_base": ["isomorphism crate transcription lean/SophiaModel/Model/Iso.lean",
                      "oracle tests lean/SophiaModel/Model/IsoOracle.lean and their Rust twins cert_ok / ground_differs (compared on every case)",
